@@ -1,17 +1,30 @@
 ------------------------------ MODULE StreamGen ------------------------------
 EXTENDS Naturals, Sequences, TLC, Json
-CONSTANTS Engines, Profiles, CTs, Kinds, ChunkSizes, StallPoints
+CONSTANTS Engines, Profiles, CTs, Kinds, ChunkSizes, StallPoints,
+          Routes   \* abort / leak scenarios: "proxy", or "anthropic" (the stream is translated on its way back)
 VARIABLE scn
 Init == \E en \in Engines : \E pr \in Profiles : \E ct \in CTs : \E k \in Kinds :
           \/ k = "flow"  /\ \E cs \in ChunkSizes : scn = [kind |-> k, engine |-> en, profile |-> pr, ct |-> ct, chunk |-> cs, n |-> 4]
+          \* causally gated flow on the TRANSLATED route: the backend sends OpenAI chunk k+1 only after the client has
+          \* seen the Anthropic event made from chunk k -- text deltas, or the fragments of a tool call's arguments
+          \/ k = "tflow" /\ ct = "text/event-stream" /\ \E sh \in {"text", "tool"} :
+                 scn = [kind |-> k, engine |-> en, profile |-> pr, ct |-> ct, shape |-> sh, route |-> "anthropic"]
           \* a stall is "mid-response": after the headers; before them the response timeout governs, not the read timeout
           \/ k = "stall" /\ \E sp \in StallPoints \ {"prehdr"} : scn = [kind |-> k, engine |-> en, profile |-> pr, ct |-> ct, at |-> sp]
           \/ k = "pause" /\ scn = [kind |-> k, engine |-> en, profile |-> pr, ct |-> ct, gap |-> 300]
           \* a longer timeout (2 s), a chunk 400 ms after the first, then one pause of 1.7 s: below the timeout, but
           \* longer than what is left of a clock started at the FIRST chunk
           \/ k = "pause" /\ scn = [kind |-> k, engine |-> en, profile |-> pr, ct |-> ct, gap |-> 1700, rt |-> 2000]
-          \/ k = "abort" /\ \E sp \in StallPoints : scn = [kind |-> k, engine |-> en, profile |-> pr, ct |-> ct, at |-> sp]
-          \/ k = "leak"  /\ ct = "text/event-stream" /\ scn = [kind |-> k, engine |-> en, profile |-> pr, ct |-> ct, reps |-> 20]
+          \* the client goes away while the backend stalls at one of the stall points, or while it keeps sending
+          \* ("flowing": the proxy always has a chunk in hand at the moment the client is gone)
+          \* a response_timeout (0.4 s) shorter than the read timeout (2 s), and a pause between the two: it is the READ
+          \* timeout that says how long a backend may pause
+          \/ k = "pause" /\ scn = [kind |-> k, engine |-> en, profile |-> pr, ct |-> ct, gap |-> 700, rt |-> 2000, rsp |-> 400]
+          \/ k = "abort" /\ \E sp \in StallPoints \cup {"flowing"} : \E rt \in Routes :
+                 /\ (rt = "anthropic" => ct = "text/event-stream")
+                 /\ scn = [kind |-> k, engine |-> en, profile |-> pr, ct |-> ct, at |-> sp, route |-> rt]
+          \/ k = "leak"  /\ ct = "text/event-stream" /\ \E sp \in {"chunk1", "flowing"} : \E rt \in Routes :
+                 scn = [kind |-> k, engine |-> en, profile |-> pr, ct |-> ct, reps |-> 20, at |-> sp, route |-> rt]
 Next == FALSE /\ UNCHANGED scn
 Export == PrintT(<<"SCN", ToJson(scn)>>)
 =============================================================================
